@@ -20,7 +20,14 @@ def sampled_patterns(rng, kernel, nmin, nmax, count):
         n = int(rng.integers(nmin, nmax + 1))
         out.append(dict(kernel=kernel, n=n, pos=[str(rng.choice(["atL", "nearL", "in", "in", "atU", "nearU", "free"])) for _ in range(n)],
                         sgn=[str(rng.choice(["neg", "zero", "pos", "pos", "neg"])) for _ in range(n)],
-                        hk=str(rng.choice(["zero", "psd_lowrank", "psd_full", "indefinite", "badscale"])) if kernel == "trsbox" else "zero", sets=[]))
+                        hk=str(rng.choice(["zero", "psd_lowrank", "psd_full", "indefinite", "badscale"])) if kernel == "trsbox" else "zero", sets=[], coin="none", act="inside", rel="generic"))
+        if kernel == "trsbox":
+            nmov = sum(1 for p, s in zip(out[-1]["pos"], out[-1]["sgn"]) if p == "in" and s != "zero")
+            u = rng.random()
+            if nmov >= 2 and u < 0.25:
+                out[-1]["coin"] = "tied_bounds"
+            elif nmov >= 1 and u < 0.5:
+                out[-1]["coin"] = "bound_on_sphere"
     return out
 
 
@@ -36,8 +43,10 @@ def run_kernel_check(prop, tier, kernels_wanted, solver_insts, reps, sample_coun
         ks = [s for s in states if s["kernel"] == k]
         if k.startswith("ctrsbox"):
             cnt = sample_counts.get(k, 40)
-            idx = rng.choice(len(ks), size=min(cnt, len(ks)), replace=False)
-            ks = [ks[int(i)] for i in idx]
+            inside = [s for s in ks if s["act"] == "inside"]
+            idx = rng.choice(len(inside), size=min(cnt, len(inside)), replace=False)
+            # every 'active' pattern; two active half-spaces (the slowly converging case of the alternating projections) several times over
+            ks = [inside[int(i)] for i in idx] + [s for s in ks if s["act"] == "active"] + [s for s in ks if s["act"] == "active" and list(s["sets"]) == ["half", "half"]] * 2
         sel += ks
         if k in ("trsbox", "trsbox_geometry"):
             sel += sampled_patterns(rng, k, maxn + 1, 8, sample_counts.get(k + "_hi", 300))
